@@ -25,8 +25,8 @@ PROPS = {
             "thorough": [J("^vhC20_ulule_L3$", samples=8, **RLU), J("^vhC20_native_n3$", samples=2, **RLN)], "bounds": {"keys": 2, "quota": "1..2", "bursts": 2},
             "assumptions": ["ulule: the third-party store is a harness-side per-key counter with a symbolic limit (single window) and an injectable error; the real limiter.Limiter.Get is executed",
                             "native: items of a burst arrive at one logical instant; a full window elapses between bursts; the quota bound for spans that straddle a window boundary is not asserted"]},
-    "C19": {"quick": [J("^vhC19_(pipe|standalone)_L2$", samples=4, **PROM), J("^vhC19_arity_L1$", samples=4, maxdepth=3000, maxsteps=2000000, **PROM)],
-            "thorough": [J("^vhC19_(pipe|standalone)_L3$", samples=8, **PROM), J("^vhC19_arity_L2$", samples=8, maxdepth=3000, maxsteps=2000000, **PROM)], "bounds": {}, "assumptions": ["prometheus client library replaced by counting stubs (Inc=+1, Observe=count+1, one child per vector); introspection.GetFunctionDescription replaced by a fixed description; licence = the package's own bypass flag"]},
+    "C19": {"quick": [J("^vhC19_(pipe|standalone|origin)_L2$", samples=4, **PROM), J("^vhC19_arity_L1$", samples=4, maxdepth=3000, maxsteps=2000000, **PROM)],
+            "thorough": [J("^vhC19_(pipe|standalone|origin)_L3$", samples=8, **PROM), J("^vhC19_arity_L2$", samples=8, maxdepth=3000, maxsteps=2000000, **PROM)], "bounds": {}, "assumptions": ["prometheus client library replaced by counting stubs (Inc=+1, Observe=count+1, one child per vector); introspection.GetFunctionDescription replaced by a fixed description; licence = the package's own bypass flag"]},
     "C05": {"quick": [J("^vhC05_multi_T4$", samples=4), J("^vhC05_conc_v2$", preempt=0, samples=2)], "thorough": [J("^vhC05_multi_T5$", samples=8), J("^vhC05_conc_v2$", preempt=0, samples=2), J("^vhC05_conc_v2$", preempt=1, samples=2, maxpaths=2000000)], "bounds": {}, "assumptions": []},
     "C06": {"quick": [J("^vhC06_(inside_L2|wait_L1|collect_L2)$", preempt=1, samples=3)], "thorough": [J("^vhC06_(inside_L3|wait_L2|collect_L3)$", preempt=2, samples=4)], "bounds": {}, "assumptions": []},
     "C08": {"quick": [J("^vhC08_(sync_L2|handoff_n2)$", preempt=1, samples=3)], "thorough": [J("^vhC08_(sync_L3|handoff_n3)$", preempt=2, samples=4)], "bounds": {}, "assumptions": []},
